@@ -156,6 +156,7 @@ func genData(r *Rng) map[string]any {
 		d[r.Pick([]string{"true", "false"})] = r.Pick([]string{"mine", "7", "true"})
 	}
 	d["p4"], d["q4"] = &T4{N: int64(r.Intn(3))}, &T4{N: int64(10 + r.Intn(3))} // two receivers of one type with different method results
+	d["t3"] = T3{T2{X: int64(20 + r.Intn(5))}, r.Intn(9)}                      // promoted fields and methods of an embedded struct
 	d["fname"] = r.Pick([]string{"f1", "f1", "f2", "f3", "nosuch"})
 	d["fnames"] = []any{r.Pick([]string{"f1", "f2"}), r.Pick([]string{"f1", "f2", "f3"}), "f1"}[:1+r.Intn(3)]
 	return d
@@ -216,7 +217,12 @@ func newManager(cfg tmplCfg, files [][2]string) (m types.TemplateManager, loadEr
 			m, loadErr = nil, fmt.Sprintf("PANIC %v", x)
 		}
 	}()
-	mgr := html.NewTplManager().SetAttrPrefix(cfg.ap).SetTagPrefix(cfg.tp).SetGlobalScope(exp.NewScope(cfg.global))
+	mgr := html.NewTplManager().SetAttrPrefix(cfg.ap).SetTagPrefix(cfg.tp)
+	if len(files) > 0 && len(files[0][1])%3 == 0 {
+		// the global scope may be SET more than once: the last one replaces the earlier ones entirely
+		mgr.SetGlobalScope(exp.NewScope(map[string]any{"g1": "stale-global", "stale": "stale", "len": "stale-len", "name": "stale-name", "zz": "stale-zz"}))
+	}
+	mgr.SetGlobalScope(exp.NewScope(cfg.global))
 	if cfg.tags != nil {
 		mgr.SetTextTags(cfg.tags)
 	}
